@@ -1,7 +1,13 @@
 (*  C20 — Results are invariant to arm names and to the order of training rows.
    
     PROVED:
-     * renaming: for every renaming f of the arms under which label equality is preserved (every injection), the
+     * RENAMING, every policy combination, every history (run_respects_renaming / renamed_run_returns_renamed_results): the
+       model is parametric in the label type and touches labels only through the equality test, so the relational-parametricity
+       translation of [run] (Paramcoq; the generated term is checked by the kernel) relates the runs of any two bandits whose
+       states and calls are related by a renaming f with beqb (f x) (f y) = aeqb x y: each call is accepted or rejected alike,
+       every prediction is f of the original prediction, every expectation dictionary has the keys renamed by f in the same
+       order with EQUAL values (bit-for-bit: the number structure is related by equality), and the final states are related;
+     * renaming (specification level): for every renaming f of the arms under which label equality is preserved (every injection), the
        renamed arm sees, in the renamed history, exactly the reward batches the original arm sees - so by the
        closed forms of C01 every statistic is unchanged (structural: holds bit-for-bit);
      * row order (exact arithmetic): permuting the rows of a batch leaves the sum and the number of rewards of
@@ -12,7 +18,7 @@
     ..._partial: LinGreedy's scale law and Radius/LSH row-order invariance are checked by the transformed-twin
     relation on the implementation. *)
 From Coq Require Import List ZArith Bool Arith QArith Qcanon Permutation.
-From MW Require Import Num Assoc AssocFacts Rng Par CF CFInv CFClean CFForget CFSpec Matrix Lin Warm WarmInv Nbr NbrFacts NbrIndep LshFacts Clu Tree CellFacts Mab FacadeCF FacadeArms MoreFacts NumLaws CFAlg Sim Extra QcInst.
+From MW Require Import Num Assoc AssocFacts Rng Par CF CFInv CFClean CFForget CFSpec Matrix Lin Warm WarmInv Nbr NbrFacts NbrIndep LshFacts Clu Tree CellFacts Mab FacadeCF FacadeArms MoreFacts NumLaws CFAlg Sim Extra QcInst OrderFacts ExpIrrel LinInv FacadeLin LpInv NbrInv CluTreeInv FacadeAll ToyFacts C09All C10All LinForget LinSim MatrixFacts GaussJordan LinSpec NbrIndepGen CluIndep C17Lin WarmIdem C14More LshScale TreeLeaf Rename.
 Import ListNotations.
 
 Theorem C20_renamed_arm_sees_the_same_reward_batches :
@@ -45,4 +51,52 @@ Theorem C20_mean_shift_law :
 Proof. exact @mean_shift. Qed.
 Print Assumptions C20_mean_shift_law.
 
+
+Theorem C20_renamed_runs_are_related_every_policy_combination :
+  forall (R A B G : Type) (N : Num R) (aeqb : A -> A -> bool) (beqb : B -> B -> bool) (RG : RngOps R G) (f : A -> B),
+  (forall x y : A, beqb (f x) (f y) = aeqb x y) ->
+  forall (m1 : @mab R A G) (m2 : @mab R B G) (ops1 : list (@op R A)) (ops2 : list (@op R B)),
+  mab_R R R eq A B (renamed f) G G eq m1 m2 ->
+  list_R _ _ (op_R R R eq A B (renamed f)) ops1 ops2 ->
+  prod_R _ _ (mab_R R R eq A B (renamed f) G G eq) _ _ (list_R _ _ (out_R R R eq A B (renamed f)))
+         (run N aeqb RG m1 ops1) (run N beqb RG m2 ops2).
+Proof. exact @run_respects_renaming. Qed.
+Print Assumptions C20_renamed_runs_are_related_every_policy_combination.
+
+Theorem C20_renamed_run_returns_renamed_results :
+  forall (R A B G : Type) (N : Num R) (aeqb : A -> A -> bool) (beqb : B -> B -> bool) (RG : RngOps R G) (f : A -> B),
+  (forall x y : A, beqb (f x) (f y) = aeqb x y) ->
+  forall (m1 : @mab R A G) (m2 : @mab R B G) (ops1 : list (@op R A)) (ops2 : list (@op R B)),
+  mab_R R R eq A B (renamed f) G G eq m1 m2 ->
+  list_R _ _ (op_R R R eq A B (renamed f)) ops1 ops2 ->
+  snd (run N beqb RG m2 ops2) = map (out_rename f) (snd (run N aeqb RG m1 ops1)).
+Proof. exact @renamed_run_returns_renamed_results. Qed.
+Print Assumptions C20_renamed_run_returns_renamed_results.
+
+Theorem C20_related_outputs_are_renamed_outputs :
+  forall (R A B : Type) (f : A -> B) (o1 : @out R A) (o2 : @out R B),
+  out_R R R eq A B (renamed f) o1 o2 -> o2 = out_rename f o1.
+Proof. exact @related_outputs_are_renamed_outputs. Qed.
+Print Assumptions C20_related_outputs_are_renamed_outputs.
+
+(* non-vacuity of the renaming theorem: related inputs exist (a UCB1 bandit, arms renamed by z -> z + 100) and the renamed
+   run returns the renamed results *)
+Definition rn (z : Z) : Z := (z + 100)%Z.
+Lemma rn_eqb x y : Z.eqb (rn x) (rn y) = Z.eqb x y.
+Proof. unfold rn. destruct (Z.eqb_spec x y) as [E|E]; destruct (Z.eqb_spec (x + 100) (y + 100)) as [E2|E2]; try reflexivity.
+  - subst; contradiction.
+  - exfalso; apply E. apply (proj1 (Z.add_cancel_r x y 100%Z) E2). Qed.
+Definition rx_orc : @oracle Qc Z := mkOracle [] [] [] (fun _ _ => 0%nat) [].
+Definition rx_m1 : @mab Qc Z nat := {| m_imp := ICf (cf_init QcNum KUcb 1%Qc None [3; 1; 2]%Z); m_fitted := false; m_rng := 0%nat |}.
+Definition rx_m2 : @mab Qc Z nat := {| m_imp := ICf (cf_init QcNum KUcb 1%Qc None [103; 101; 102]%Z); m_fitted := false; m_rng := 0%nat |}.
+Definition rx_ops1 : list (@op Qc Z) := [Fit [3; 1; 1]%Z [1%Qc; 0%Qc; 1%Qc] None rx_orc; AddArm 7%Z None; Predict None rx_orc; PredictExp None rx_orc].
+Definition rx_ops2 : list (@op Qc Z) := [Fit [103; 101; 101]%Z [1%Qc; 0%Qc; 1%Qc] None rx_orc; AddArm 107%Z None; Predict None rx_orc; PredictExp None rx_orc].
+Ltac rel := repeat (first [reflexivity | (unfold renamed, rn; reflexivity) | apply nat_R_refl | apply Z_R_refl | apply bool_R_refl | constructor | (intros; apply nat_R_refl)]).
+Example C20_related_inputs_exist :
+  (mab_R Qc Qc eq Z Z (renamed rn) nat nat eq rx_m1 rx_m2 * list_R _ _ (op_R Qc Qc eq Z Z (renamed rn)) rx_ops1 rx_ops2)%type.
+Proof. split; unfold rx_m1, rx_m2, rx_ops1, rx_ops2, rx_orc, cf_init; simpl; rel. Qed.
+Example C20_renamed_run :
+  snd (run QcNum Z.eqb ToyRng rx_m2 rx_ops2) = map (out_rename rn) (snd (run QcNum Z.eqb ToyRng rx_m1 rx_ops1)) /\
+  nth 2 (snd (run QcNum Z.eqb ToyRng rx_m2 rx_ops2)) ODone = OArm (Some 103%Z).
+Proof. split; [apply (renamed_run_returns_renamed_results QcNum Z.eqb Z.eqb ToyRng rn rn_eqb); apply C20_related_inputs_exist | vm_compute; reflexivity]. Qed.
 
